@@ -1,4 +1,8 @@
 import BSModel.Proofs.EncodingOut
+import BSModel.Proofs.EncodingOutUtf
+import BSModel.Proofs.EncodingOutSub
+import BSModel.Proofs.EncodingOutTree
+import BSModel.Proofs.EncodingOutDetect
 /-! # C08 — output in any target encoding is valid, lossless and self-describing
 
 Property theorems only. `pyEncode`/`encodeWith` is `str.encode(codec, errors)`, `encodeImpl`/`prettifyImpl`/`encodeContentsImpl`
@@ -27,7 +31,8 @@ def metaContent : Node :=
     can write ASCII (so that it can write `&#…;`): the bytes are the strict encoding of the replaced string. -/
 theorem encodeWith_total (C : Codec) (h : C.AsciiOK) (s : PStr) :
     encodeWith C s = .bytes (C.enc (xmlcharrefreplace C s)) := by
-  simp only [pyEncode, firstBad_none C _ 0 (xcr_encodable C h s)]
+  show pyEncode C .xmlcharrefreplace s = _
+  rw [pyEncode_nonstrict C h _ (by decide), handled_xcr]
 
 /-- All three entry points return bytes, whatever the tree, the indentation and the target encoding
     (`Tag.encode`: element.py `u.encode(encoding, errors)` with the default `errors="xmlcharrefreplace"`;
@@ -109,6 +114,109 @@ example : xmlcharrefreplace latin1Codec [0x2603, 0xE9, 0x1F600, 0xD800] = ofS "&
 theorem encodable_untouched (C : Codec) (s : PStr) (h : C.Encodable s) : xmlcharrefreplace C s = s :=
   xcr_encodable_id C s h
 
+/-! ## 2b. the `errors=` argument, and the fallback for every code point and every class of codec -/
+
+/-- `Tag.encode(encoding, errors=h)` hands `h` to `str.encode`. Every handler but `strict` always returns bytes: the strict
+    encoding of the rendering in which each unencodable code point is replaced by what the handler dictates (nothing,
+    `?`, `&#N;`, `\xhh`/`\uhhhh`/`\Uhhhhhhhh`). -/
+theorem encode_errors_total (C : Codec) (hA : C.AsciiOK) (h : Handler) (hs : h ≠ .strict) (name : PStr) (indent : Option Nat)
+    (t : Node) :
+    encodeImpl name C indent t h = .bytes (C.enc (handled C h (decodeImpl indent (some name) t))) :=
+  pyEncode_nonstrict C hA h hs _
+
+/-- … and the bytes decode to that handled string -/
+theorem bytes_decode_errors (C : Codec) (hA : C.AsciiOK) (hr : C.RoundTrip) (h : Handler) (hs : h ≠ .strict) (s : PStr) (b : Bytes)
+    (hb : pyEncode C h s = .bytes b) : C.dec b = some (handled C h s) := by
+  rw [pyEncode_nonstrict C hA h hs s] at hb
+  cases hb
+  exact hr _ (handled_encodable C hA h s)
+
+/-- when every character is encodable the handler is never consulted: all five give the strict encoding -/
+theorem handlers_agree_on_encodable (C : Codec) (s : PStr) (hs : C.Encodable s) (h : Handler) :
+    pyEncode C h s = .bytes (C.enc s) := by
+  cases h <;> simp only [pyEncode, firstBad_none C _ 0 hs, handled_encodable_id C _ s hs]
+
+/-- only `xmlcharrefreplace` — bs4's default — writes something a reader turns back into the character: the other
+    handlers lose it (`ignore`), flatten it (`replace`) or leave an escape no HTML reader undoes (`backslashreplace`) -/
+theorem other_handlers_lose :
+    readText (fun _ => none) (handled asciiCodec .xmlcharrefreplace (substituteXml [97, 0x2603])) = [97, 0x2603]
+    ∧ readText (fun _ => none) (handled asciiCodec .ignore (substituteXml [97, 0x2603])) = [97]
+    ∧ readText (fun _ => none) (handled asciiCodec .replace (substituteXml [97, 0x2603])) = [97, 63]
+    ∧ readText (fun _ => none) (handled asciiCodec .backslashreplace (substituteXml [97, 0x2603, 0xE9, 0x1F600]))
+        = ofS "a\\u2603\\xe9\\U0001f600" := by decide
+
+example : encodeImpl (ofS "ascii") asciiCodec none demo .replace = .bytes (ofS "<p title=\"??\">a&amp;?<br/></p>") := by decide +kernel
+example : encodeImpl (ofS "ascii") asciiCodec none demo .strict = .unicodeEncodeError 10 0x2603 := by decide +kernel
+
+/-- **The fallback, for every code point and every codec.** What stands for `c` in the output is `c` itself when the codec
+    can encode it, and otherwise `&#` + the decimal digits of `c` + `;` — pure ASCII, at most ten characters for a code
+    point of the Unicode range, and the digits read back as `c`. -/
+theorem fallback_every_code_point (C : Codec) (c : Nat) :
+    (C.canEnc c = true → xcrChar C c = [c])
+    ∧ (C.canEnc c = false → xcrChar C c = [38, 35] ++ toDec c ++ [59] ∧ (∀ d ∈ xcrChar C c, d < 128)
+        ∧ ofDec (toDec c) = c ∧ (∀ d ∈ toDec c, isDigit d = true) ∧ toDec c ≠ []
+        ∧ (c < 0x110000 → (xcrChar C c).length ≤ 10)) := by
+  refine ⟨fun h => by simp [xcrChar, h], fun h => ?_⟩
+  have e : xcrChar C c = [38, 35] ++ toDec c ++ [59] := by simp [xcrChar, h, charref]
+  refine ⟨e, ?_, ofDec_toDec c, toDec_digits c, toDec_ne_nil c, ?_⟩
+  · intro d hd; rw [e] at hd; exact charref_lt128 c d (by simpa [charref] using hd)
+  · intro hc
+    have := toDec_length_le c hc
+    rw [e]; simp; omega
+
+/-- class 1, single-byte charsets (any decode table): a code point is written as a reference exactly when it is not in the
+    table; class 2, the UTFs: exactly the lone surrogates are (they are not characters; everything else passes). -/
+theorem fallback_by_codec_class (tbl : List Nat) (c : Nat) :
+    ((tableCodec tbl).canEnc c = true ↔ (c < 0x110000 ∧ c ∈ tbl))
+    ∧ (utf8Codec.canEnc c = true ↔ (c < 0x110000 ∧ ¬ (0xD800 ≤ c ∧ c ≤ 0xDFFF)))
+    ∧ utf8Codec.canEnc = utf16Codec.canEnc ∧ utf8Codec.canEnc = utf32Codec.canEnc
+    ∧ utf8Codec.canEnc = utf16leCodec.canEnc ∧ utf8Codec.canEnc = utf16beCodec.canEnc
+    ∧ utf8Codec.canEnc = utf32leCodec.canEnc ∧ utf8Codec.canEnc = utf32beCodec.canEnc := by
+  refine ⟨?_, ?_, rfl, rfl, rfl, rfl, rfl, rfl⟩
+  · simp only [tableCodec, undef, Bool.and_eq_true, List.contains_iff_mem]
+    constructor
+    · intro h; exact ⟨of_decide_eq_true h.1, h.2⟩
+    · intro h; exact ⟨decide_eq_true h.1, h.2⟩
+  · simp [utf8Codec, isScalar, isSurr]; omega
+
+/-- a document of characters (no lone surrogate) goes to any UTF without a single reference -/
+theorem utf_needs_no_references (s : PStr) (h : ∀ c ∈ s, isScalar c = true) :
+    xmlcharrefreplace utf8Codec s = s ∧ xmlcharrefreplace utf16Codec s = s ∧ xmlcharrefreplace utf32Codec s = s :=
+  ⟨xcr_encodable_id _ s h, xcr_encodable_id _ s h, xcr_encodable_id _ s h⟩
+
+example : xmlcharrefreplace utf8Codec [97, 0xD800, 0x1F600] = ofS "a&#55296;" ++ [0x1F600] := by decide
+example : utf8Codec.enc [0x24, 0xE9, 0x20AC, 0x1F600] = [0x24, 0xC3, 0xA9, 0xE2, 0x82, 0xAC, 0xF0, 0x9F, 0x98, 0x80] := by decide
+example : utf16Codec.enc [0x41, 0x1F600] = [0xFF, 0xFE, 0x41, 0, 0x3D, 0xD8, 0x00, 0xDE] := by decide
+
+/-- The codec laws the theorems assume are satisfied by real codecs: all seven UTFs (CPython's byte layouts, compared byte
+    for byte by the harness) obey the round-trip law and can write ASCII; UTF-8 is ASCII-compatible. -/
+theorem utf_codecs_lawful :
+    utf8Codec.RoundTrip ∧ utf16Codec.RoundTrip ∧ utf16leCodec.RoundTrip ∧ utf16beCodec.RoundTrip
+    ∧ utf32Codec.RoundTrip ∧ utf32leCodec.RoundTrip ∧ utf32beCodec.RoundTrip
+    ∧ utf8Codec.AsciiOK ∧ utf16Codec.AsciiOK ∧ utf32Codec.AsciiOK ∧ utf8Codec.AsciiCompat :=
+  ⟨utf8_roundTrip, utf16_roundTrip, utf16le_roundTrip, utf16be_roundTrip, utf32_roundTrip, utf32le_roundTrip, utf32be_roundTrip,
+   utf8_asciiOK, fun c hc => utf_asciiOK c hc, fun c hc => utf_asciiOK c hc, utf8_asciiCompat⟩
+
+/-- … and by every generated single-byte table (the whole `sbCodecs` table, not a sample): each can write ASCII — cp500
+    (EBCDIC) included — and each except cp500 writes ASCII as itself, hence is ASCII-compatible. -/
+theorem sb_tables_ascii :
+    sbCodecs.all (fun p => tableAsciiOK p.2) = true
+    ∧ sbCodecs.all (fun p => tableAsciiAt p.2 || p.1 == ofS "cp500") = true
+    ∧ tableAsciiAt sb_cp500 = false := by
+  refine ⟨?_, ?_, ?_⟩ <;> decide +kernel
+
+theorem sb_table_codec_laws (nm : PStr) (tbl : List Nat) (h : (nm, tbl) ∈ sbCodecs) :
+    (tableCodec tbl).RoundTrip ∧ (tableCodec tbl).AsciiOK ∧ (nm ≠ ofS "cp500" → (tableCodec tbl).AsciiCompat) := by
+  refine ⟨tableCodec_roundTrip tbl, tableCodec_asciiOK tbl ?_, fun hn => tableCodec_asciiCompat tbl ?_⟩
+  · exact List.all_eq_true.mp sb_tables_ascii.1 (nm, tbl) h
+  · have := List.all_eq_true.mp sb_tables_ascii.2.1 (nm, tbl) h
+    simp only [Bool.or_eq_true, beq_iff_eq] at this
+    rcases this with h1 | h1
+    · exact h1
+    · exact absurd h1 hn
+
+example : (ofS "koi8-r", sb_koi8_r) ∈ sbCodecs := by simp [sbCodecs, ofS]
+
 /-! ## 3. losslessness: re-reading the decoded bytes recovers text and attribute values -/
 
 /-- table fact over the generated windows-1252 table: outside 0x80–0x9F, byte `n` of windows-1252 is U+`n` (so bs4's
@@ -185,49 +293,120 @@ theorem lossless_attr_needs_safe :
 
 /-! ## 4. the declared charset names the encoding used — or is left alone -/
 
-/-- HTML5 style. A `<meta>` with a `charset` attribute — whatever else it carries, an HTML4-style declaration included —
-    gets the placeholder at parse time, and rendering with `eventual_encoding = e` writes `e` there (the empty string for a
-    Python-specific `e`), whatever the old value was. -/
+/-- HTML5 style. A `<meta>` with a `charset` attribute (with a value: `charset is not None`) — whatever else it carries, an
+    HTML4-style declaration included — gets the placeholder at parse time, and rendering with `eventual_encoding = e` writes
+    `e` there (the empty string for a Python-specific `e`), whatever the old value was. -/
 theorem meta_rewritten_charset (attrs : List (PStr × AttrVal)) (old : AttrVal) (e : PStr)
-    (h : lookupAttr (ofS "charset") attrs = some old) :
+    (h : lookupAttr (ofS "charset") attrs = some old) (hv : old ≠ .novalue) :
     (lookupAttr (ofS "charset") (setUpSubstitutions (ofS "meta") attrs)).map (attrValue (some e))
       = some (if isPythonSpecific e then [] else e) := by
   have hne : ofS "charset" ≠ ofS "content" := by decide
-  simp [setUpSubstitutions, lookup_subContentStep _ hne, subCharsetStep, h, lookup_setAttr, attrValue, substituteCharset]
+  simp [setUpSubstitutions, lookup_subContentStep _ hne, subCharsetStep_some attrs old h hv, lookup_setAttr, attrValue,
+    substituteCharset]
 
 /-- … and with `eventual_encoding = None` (`decode()` to str for a str destination) the old value is written back. -/
 theorem meta_untouched_charset (attrs : List (PStr × AttrVal)) (old : AttrVal)
-    (h : lookupAttr (ofS "charset") attrs = some old) :
+    (h : lookupAttr (ofS "charset") attrs = some old) (hv : old ≠ .novalue) :
     (lookupAttr (ofS "charset") (setUpSubstitutions (ofS "meta") attrs)).map (attrValue none) = some old.str := by
   have hne : ofS "charset" ≠ ofS "content" := by decide
-  simp [setUpSubstitutions, lookup_subContentStep _ hne, subCharsetStep, h, lookup_setAttr, attrValue]
+  simp [setUpSubstitutions, lookup_subContentStep _ hne, subCharsetStep_some attrs old h hv, lookup_setAttr, attrValue]
 
 /-- `eventual_encoding = None` leaves *every* attribute value as parsed: placeholders render as their original text. -/
 theorem meta_untouched (v : AttrVal) : attrValue none v = v.str := by
   cases v <;> rfl
 
-/-- HTML4 style: `content` becomes a placeholder whenever `http-equiv` is `content-type` in any letter case — whether or
-    not the same tag also has a `charset` attribute (the repaired `if … if …`; 4.13.0's `elif` skipped this branch then, see
-    `meta_both_styles_old_stale`). -/
+/-- … at the level of whole trees, for every entry point that renders with `eventual_encoding=None` and every
+    indentation: the rendering is exactly that of the tree in which no placeholder was ever installed (`plainN` turns every
+    placeholder back into a plain string) — nothing anywhere in the document is rewritten. -/
+theorem decode_without_encoding_ignores_placeholders (indent : Option Nat) (t : Node) :
+    decodeImpl indent none (plainN t) = decodeImpl indent none t
+    ∧ decodeContentsImpl indent none (plainN t) = decodeContentsImpl indent none t := by
+  constructor
+  · cases indent with
+    | none => exact decodeNode_none_plain [] t
+    | some l => exact prettyNode_none_plain [] l t
+  · cases t with
+    | text s => rfl
+    | tag n as ks =>
+      cases indent with
+      | none => simp only [plainN, decodeContentsImpl]; exact decodeKids_none_plain n ks
+      | some l => simp only [plainN, decodeContentsImpl]; exact prettyKids_none_plain n l ks
+
+example : decodeImpl none none (.tag (ofS "head") [] [metaCharset, metaContent])
+    = ofS "<head><meta charset=\"utf8\"/><meta content=\"text/html; charset=utf8\" http-equiv=\"Content-Type\"/></head>" := by
+  decide
+
+/-- `str(tag)`, `tag.decode()`, `tag.prettify()` and `decode_contents()` are NOT "no target encoding": their
+    `eventual_encoding` defaults to `DEFAULT_OUTPUT_ENCODING`, so a declared charset is rewritten to `utf-8` in the str they
+    return (the generated constant is `utf-8` and is not Python-specific). Only an explicit `eventual_encoding=None` leaves
+    the declaration alone. -/
+theorem str_rendering_names_default (attrs : List (PStr × AttrVal)) (old : AttrVal)
+    (h : lookupAttr (ofS "charset") attrs = some old) (hv : old ≠ .novalue) :
+    (lookupAttr (ofS "charset") (setUpSubstitutions (ofS "meta") attrs)).map (attrValue (some defaultOutputEncoding))
+      = some (ofS "utf-8") := by
+  rw [meta_rewritten_charset attrs old _ h hv]
+  decide
+
+example : strImpl metaCharset = ofS "<meta charset=\"utf-8\"/>" := by decide
+example : prettifyStrImpl (.tag (ofS "head") [] [metaContent])
+    = ofS "<head>\n <meta content=\"text/html; charset=utf-8\" http-equiv=\"Content-Type\"/>\n</head>\n" := by decide
+
+/-- `tag.encode()` with its defaults is UTF-8 of `str(tag)`, with no reference at all, for every tree of characters -/
+theorem encode_default_is_utf8 (t : Node) (h : ∀ c ∈ strImpl t, isScalar c = true) :
+    encodeImpl defaultOutputEncoding utf8Codec none t = .bytes (utf8Enc (strImpl t)) := by
+  show pyEncode utf8Codec .xmlcharrefreplace (strImpl t) = _
+  rw [handlers_agree_on_encodable utf8Codec _ h]
+  rfl
+
+/-! ### encoding touches the values only -/
+
+/-- **The markup skeleton is never touched.** For a tree whose tag and attribute names are ASCII, the decoded output of
+    `encode` is the rendering in which `xmlcharrefreplace` has been applied to each text piece and to each quoted attribute
+    value separately (`decodeNodeX`) — `<`, names, `=`, quotes, `>` stand exactly where the str rendering has them. Together
+    with `lossless_text` / `lossless_attr`, which read each such piece back, this is the document-level form of
+    losslessness on the writer's side (re-assembling a tree from the pieces is the parser's business: C09/C15). -/
+theorem encoding_touches_values_only (C : Codec) (hA : C.AsciiOK) (hr : C.RoundTrip) (name : PStr) (t : Node)
+    (hn : asciiNames t = true) (b : Bytes) (hb : encodeImpl name C none t = .bytes b) :
+    C.dec b = some (decodeNodeX C (some name) [] t) := by
+  have := (entry_points_decode C hA hr name none t).1 b hb
+  rw [this]
+  congr 1
+  exact xcr_decodeNode C hA (some name) [] t hn
+
+example : ∀ c ∈ strImpl demo, isScalar c = true := by decide
+example : asciiNames demo = true := by decide
+example : decodeNodeX asciiCodec (some (ofS "ascii")) [] demo = ofS "<p title=\"&#9731;&#233;\">a&amp;&#9731;<br/></p>" := by
+  decide +kernel
+
+/-- HTML4 style: `content` (with a value) becomes a placeholder whenever `http-equiv` — a string, or any element of a list
+    value (`get_attribute_list`) — is `content-type` in any letter case, whether or not the same tag also has a `charset`
+    attribute (the repaired `if … if …`; 4.13.0's `elif` skipped this branch then, see `meta_both_styles_old_stale`). -/
 theorem meta_content_placeholder (attrs : List (PStr × AttrVal)) (ct he : AttrVal)
-    (h1 : lookupAttr (ofS "content") attrs = some ct)
-    (h2 : lookupAttr (ofS "http-equiv") attrs = some he) (h3 : asciiLower he.str = ofS "content-type") :
+    (h1 : lookupAttr (ofS "content") attrs = some ct) (hv : ct ≠ .novalue)
+    (h2 : lookupAttr (ofS "http-equiv") attrs = some he) (h3 : isContentType he = true) :
     lookupAttr (ofS "content") (setUpSubstitutions (ofS "meta") attrs) = some (.contentMeta ct.str) := by
   have hc : ofS "content" ≠ ofS "charset" := by decide
   have hh : ofS "http-equiv" ≠ ofS "charset" := by decide
-  simp [setUpSubstitutions, subContentStep, lookup_subCharsetStep _ hc, lookup_subCharsetStep _ hh, h1, h2, h3, lookup_setAttr]
+  have := subContentStep_some (subCharsetStep attrs) ct he (by rw [lookup_subCharsetStep _ hc]; exact h1) hv
+    (by rw [lookup_subCharsetStep _ hh]; exact h2) h3
+  simp [setUpSubstitutions, this, lookup_setAttr]
+
+example : isContentType (.plain (ofS "Content-TYPE")) = true := by decide
+example : isContentType (.list [ofS "refresh", ofS "CONTENT-type"]) = true := by decide
+example : isContentType (.plain (ofS "content-type ")) = false := by decide
 
 /-- A single `<meta>` carrying both declaration styles gets both placeholders, so both are rewritten on output and no
     stale `charset=` is left for a reader's regex to pick up. -/
 theorem meta_both_styles (attrs : List (PStr × AttrVal)) (cs ct he : AttrVal) (e : PStr)
-    (h0 : lookupAttr (ofS "charset") attrs = some cs) (h1 : lookupAttr (ofS "content") attrs = some ct)
-    (h2 : lookupAttr (ofS "http-equiv") attrs = some he) (h3 : asciiLower he.str = ofS "content-type") :
+    (h0 : lookupAttr (ofS "charset") attrs = some cs) (hv0 : cs ≠ .novalue)
+    (h1 : lookupAttr (ofS "content") attrs = some ct) (hv1 : ct ≠ .novalue)
+    (h2 : lookupAttr (ofS "http-equiv") attrs = some he) (h3 : isContentType he = true) :
     (lookupAttr (ofS "charset") (setUpSubstitutions (ofS "meta") attrs)).map (attrValue (some e)) = some (substituteCharset e)
     ∧ (lookupAttr (ofS "content") (setUpSubstitutions (ofS "meta") attrs)).map (attrValue (some e))
         = some (substituteContent e ct.str) := by
   refine ⟨?_, ?_⟩
-  · rw [meta_rewritten_charset attrs cs e h0]; rfl
-  · rw [meta_content_placeholder attrs ct he h1 h2 h3]; rfl
+  · rw [meta_rewritten_charset attrs cs e h0 hv0]; rfl
+  · rw [meta_content_placeholder attrs ct he h1 hv1 h2 h3]; rfl
 
 /-- `<meta charset="utf-8" content="text/html; charset=utf-8" http-equiv="content-type">` -/
 def metaBothAttrs : List (PStr × AttrVal) :=
@@ -252,16 +431,14 @@ theorem setUp_old_agrees (name : PStr) (attrs : List (PStr × AttrVal))
   · rfl
   · have hc : ofS "content" ≠ ofS "charset" := by decide
     have hh : ofS "http-equiv" ≠ ofS "charset" := by decide
-    rcases h with h | h | h
-    · simp [subCharsetStep, h]
-    · cases hcs : lookupAttr (ofS "charset") attrs with
-      | none => simp [subCharsetStep, hcs]
-      | some cs => simp [subContentStep, lookup_subCharsetStep _ hc, h]
-    · cases hcs : lookupAttr (ofS "charset") attrs with
-      | none => simp [subCharsetStep, hcs]
-      | some cs =>
-        simp only [subContentStep, lookup_subCharsetStep _ hc, lookup_subCharsetStep _ hh, h]
-        cases lookupAttr (ofS "content") attrs <;> rfl
+    cases hcs : lookupAttr (ofS "charset") attrs with
+    | none => simp [subCharsetStep_none attrs hcs]
+    | some cs =>
+      simp only
+      rcases h with h | h | h
+      · rw [hcs] at h; cases h
+      · rw [subContentStep_no_content _ (by rw [lookup_subCharsetStep _ hc]; exact h)]
+      · rw [subContentStep_no_equiv _ (by rw [lookup_subCharsetStep _ hh]; exact h)]
 
 /-- nothing but `<meta>` is touched -/
 theorem non_meta_untouched (name : PStr) (attrs : List (PStr × AttrVal)) (h : name ≠ ofS "meta") :
@@ -300,68 +477,63 @@ theorem content_rewritten_spellings :
     ∧ substituteContent (ofS "koi8-r") (ofS "text/html; xcharset=utf8") = ofS "text/html; xcharset=utf8" := by
   decide
 
-/-! ### the general shape `MIME; charset=OLD` -/
+/-! ### the general shape `PARAMS; charset=OLD; MORE` -/
 
-/-- **HTML4 style, general shape** (partial: one spelling of the key, generic media type and values; the other
-    spellings are `content_rewritten_spellings`). `MIME; charset=OLD` is rendered as `MIME; charset=E` for every target
-    name `E`, and as `MIME` for a Python-specific one. -/
-theorem meta_rewritten_content_partial (m old e : PStr) (hm : MimeLike m) (hold : ∀ c ∈ old, c ≠ 59)
-    (hws : old.dropWhile isReSpace = old) :
-    substituteContent e (m ++ ofS "; charset=" ++ old)
-      = if isPythonSpecific e then m else m ++ ofS "; charset=" ++ e := by
-  obtain ⟨hplain, c, cs, rfl, hsp, hcl⟩ := hm
-  have hc := hplain c (by simp)
-  have h10 : (c == 10) = false := by simp [hc.2]
-  have hlit : charsetReLiteral = charsetReLiteral.headD [] :: charsetReLiteral.tail := by decide
-  have hlit7 : charsetReLiteral.take 7 = charsetReLiteral.headD [] :: (charsetReLiteral.take 7).tail := by decide
-  have hkey : ∀ t, matchKey (c :: t) = none := by
-    intro t
-    have hd : (c :: t).dropWhile isReSpace = c :: t := by simp [List.dropWhile, hsp]
-    unfold matchKey
-    simp only [hd]
-    split
-    · rw [hlit7, matchClasses_head_none _ _ _ _ hcl]
-    · rw [hlit, matchClasses_head_none _ _ _ _ hcl]
-  have first : ∀ repl t, subGo repl 0 true (c :: t) = c :: subGo repl 0 false t := by
-    intro repl t
-    have hm : matchAt true (c :: t) = none := by
-      unfold matchAt
-      simp only [if_true, hkey, Option.map_none]
-      split
-      · rename_i heq; cases heq; exact absurd rfl hc.1
-      · rfl
-    rw [subGo, hm]
-    simp only [h10, Bool.and_false]
-  have tail : ∀ repl, subGo repl 0 false (ofS "; charset=" ++ old) = repl (ofS "; charset=") := by
-    intro repl
-    have hk := key_accepted old hws
-    have hlen : (old.takeWhile (fun c => c != 59)).length = old.length := by
-      rw [takeWhile_all _ old (fun x hx => by simp [hold x hx])]
-    have hma : matchAt false (59 :: (ofS " charset=" ++ old)) = some (10, 10 + old.length) := by
-      unfold matchAt
-      simp only [Bool.false_eq_true, if_false, hk, Option.map_some, matchLens, hlen]
-      simp [ofS]
-      omega
-    have e1 : ofS "; charset=" ++ old = 59 :: (ofS " charset=" ++ old) := by simp [ofS]
-    rw [e1, subGo, hma]
-    simp only
-    have hl : 10 + old.length - 1 = (ofS " charset=" ++ old).length := by simp [ofS]; omega
-    rw [hl, subGo_drop]
-    simp [ofS]
-  have step : ∀ repl, charsetReSub repl (c :: cs ++ ofS "; charset=" ++ old) = c :: cs ++ repl (ofS "; charset=") := by
-    intro repl
-    unfold charsetReSub
-    rw [List.append_assoc, List.cons_append, first, subGo_plain repl cs _ (fun x hx => hplain x (by simp [hx])), tail]
-    simp
-  unfold substituteContent
+/-- **HTML4 style, general shape.** For every content value of the form
+
+      `pre ; ws₀ KEY ws₁ = ws₂ old rest`
+
+    where `pre` is *quiet* (any text, earlier `;`-parameters and line breaks included, in which no line start and no `;`
+    is followed — after optional white space — by a letter the pattern accepts for `c`; decidable, `quietGo`), `KEY` spells
+    `charset` in any letter case the live pattern accepts, `ws₀ ws₁ ws₂` are any white space (`ws₁ ws₂` empty unless the live
+    pattern is the tolerant one), `old` is any value without `;` and `rest` is empty or begins the next `;`-parameter:
+    rendering for a target name `e` — any name — gives the same text with exactly `old` replaced by `e`, and goes on
+    rewriting `rest` the same way (so a second declaration further on is rewritten too); for a Python-specific `e` the
+    whole parameter, from its `;`, is removed. The only declarations not of this shape are those that open a line
+    without a `;` (the `^` alternative of the pattern): they are covered by `content_rewritten_spellings` (decided
+    instances) and `meta_rewritten_content_verbatim`. -/
+theorem meta_rewritten_content (pre w0 L w1 w2 old rest e : PStr)
+    (hq : quietGo true pre = true) (h0 : AllWs w0) (hL : SpellsKey L) (h1 : AllWs w1) (h2 : AllWs w2)
+    (htol : charsetReSpaceTolerant = true ∨ (w1 = [] ∧ w2 = []))
+    (hold : ∀ c ∈ old, c ≠ 59) (hws : old.dropWhile isReSpace = old) (hr : rest = [] ∨ ∃ m, rest = 59 :: m) :
+    substituteContent e (pre ++ 59 :: (w0 ++ (L ++ (w1 ++ (61 :: (w2 ++ (old ++ rest)))))))
+      = if isPythonSpecific e then
+          pre ++ subGo (fun _ => []) 0 (endBol (endBol true pre) (59 :: (w0 ++ (L ++ (w1 ++ (61 :: (w2 ++ old))))))) rest
+        else
+          pre ++ 59 :: (w0 ++ (L ++ (w1 ++ (61 :: (w2 ++ e)))))
+            ++ subGo (fun g1 => g1 ++ e) 0 (endBol (endBol true pre) (59 :: (w0 ++ (L ++ (w1 ++ (61 :: (w2 ++ old))))))) rest := by
+  unfold substituteContent charsetReSub
   split
-  · rw [step]; simp
-  · rw [step]; simp
+  · rw [subGo_general _ pre w0 L w1 w2 old rest true hq h0 hL h1 h2 htol hold hws hr]; simp
+  · rw [subGo_general _ pre w0 L w1 w2 old rest true hq h0 hL h1 h2 htol hold hws hr]; simp
+
+/-- the closed form when the declaration is the last parameter -/
+theorem meta_rewritten_content_last (pre w0 L w1 w2 old e : PStr)
+    (hq : quietGo true pre = true) (h0 : AllWs w0) (hL : SpellsKey L) (h1 : AllWs w1) (h2 : AllWs w2)
+    (htol : charsetReSpaceTolerant = true ∨ (w1 = [] ∧ w2 = []))
+    (hold : ∀ c ∈ old, c ≠ 59) (hws : old.dropWhile isReSpace = old) :
+    substituteContent e (pre ++ 59 :: (w0 ++ (L ++ (w1 ++ (61 :: (w2 ++ old))))))
+      = if isPythonSpecific e then pre else pre ++ 59 :: (w0 ++ (L ++ (w1 ++ (61 :: (w2 ++ e))))) := by
+  have := meta_rewritten_content pre w0 L w1 w2 old [] e hq h0 hL h1 h2 htol hold hws (Or.inl rfl)
+  simp only [List.append_nil] at this
+  rw [this]
+  split <;> simp [subGo]
+
+-- the hypotheses are satisfiable, by the spellings the input side reads: earlier parameters, upper case, spaces, a value
+-- with regex metacharacters, a following parameter
+example : quietGo true (ofS "text/html; x=y;\n q") = true := by decide
+example : quietGo true (ofS "application/xhtml+xml") = true := by decide
+example : quietGo true (ofS "a; charset=x") = false := by decide
+example : AllWs (ofS " \t") := by unfold AllWs; decide
+example : SpellsKey (ofS "ChArSeT") := by unfold SpellsKey; decide
+example : SpellsKey (ofS "charset") := by unfold SpellsKey; decide
+example : substituteContent (ofS "866") (ofS "text/html; x=y" ++ 59 :: (ofS " " ++ (ofS "CHARSET" ++ (ofS " " ++ (61 :: (ofS " " ++ (ofS "\\g<1>" ++ ofS "; z=1")))))))
+    = ofS "text/html; x=y; CHARSET = 866; z=1" := by decide
 
 /-- **The rewrite is literal, for ANY name.** Whenever `CHARSET_RE` finds a declaration in the original `content` value,
     the value rendered for a target name `e` — any code points whatsoever: leading digits (`866`, `1252`), backslashes,
     `\g<1>`, `$1`, `%s` — contains `e` verbatim (a callback, not a regex template, does the replacement), and no code path
-    can raise. (`meta_rewritten_content_partial` above also quantifies over every `e`, and every old value.) -/
+    can raise. (`meta_rewritten_content` above also quantifies over every `e`, and every old value.) -/
 theorem meta_rewritten_content_verbatim (e orig : PStr) (hp : isPythonSpecific e = false)
     (hs : charsetReSearch true orig = true) : e <:+: substituteContent e orig := by
   unfold substituteContent charsetReSub
@@ -382,7 +554,6 @@ example : substituteContent (ofS "latin\\1") (ofS "text/html; charset=utf8") = o
 example : substituteContent (ofS "\\g<1>$1%s{0}") (ofS "a; charset=\\1") = ofS "a; charset=\\g<1>$1%s{0}" := by decide
 example : charsetReSearch true (ofS "text/html; charset=utf8") = true := by decide
 
-example : MimeLike (ofS "text/html") := ⟨by decide, 116, ofS "ext/html", by decide, by decide, by decide⟩
 example : substituteContent (ofS "big5") (ofS "text/html" ++ ofS "; charset=" ++ ofS "utf8") = ofS "text/html; charset=big5" := by
   decide
 
@@ -396,71 +567,159 @@ theorem xml_declaration (e : PStr) :
   · cases h : isPythonSpecific e <;> simp [xmlDeclaration, h, ofS]
   · decide
 
-/-- the generated `PYTHON_SPECIFIC_ENCODINGS` holds the names the documentation lists (both spellings) -/
+/-- the names the Python documentation lists as Python-specific encodings (both spellings), as the property states them -/
+def documentedPythonSpecific : List PStr :=
+  [ofS "idna", ofS "mbcs", ofS "oem", ofS "palmos", ofS "punycode", ofS "raw_unicode_escape", ofS "undefined",
+   ofS "unicode_escape", ofS "raw-unicode-escape", ofS "unicode-escape", ofS "string-escape", ofS "string_escape"]
+
+/-- the WHOLE generated `PYTHON_SPECIFIC_ENCODINGS` table is exactly that list (each way), so `isPythonSpecific` is
+    membership in the documented list; real codec names — and other letter cases of the listed ones — are not in it -/
 theorem python_specific_table :
-    [ofS "idna", ofS "mbcs", ofS "oem", ofS "palmos", ofS "punycode", ofS "raw_unicode_escape", ofS "undefined",
-     ofS "unicode_escape", ofS "raw-unicode-escape", ofS "unicode-escape", ofS "string-escape", ofS "string_escape"].all
-      isPythonSpecific = true
+    documentedPythonSpecific.all isPythonSpecific = true
+    ∧ pythonSpecificEncodings.all (fun e => documentedPythonSpecific.contains e) = true
     ∧ [ofS "utf-8", ofS "ascii", ofS "latin-1", ofS "utf-16", ofS "koi8-r", ofS "IDNA", []].all (fun e => !isPythonSpecific e) = true := by
   decide
 
+theorem isPythonSpecific_iff (e : PStr) : isPythonSpecific e = true ↔ e ∈ documentedPythonSpecific := by
+  constructor
+  · intro h
+    have hm : e ∈ pythonSpecificEncodings := List.contains_iff_mem.mp h
+    have := List.all_eq_true.mp python_specific_table.2.1 e hm
+    exact List.contains_iff_mem.mp this
+  · intro h
+    exact List.all_eq_true.mp python_specific_table.1 e h
+
 /-! ## 5. re-detection: the output of an ASCII-compatible codec carries a declaration a reader finds -/
 
-/-- **Partial** (the finder is a simplification of dammit's `html_meta` regex without the `<meta` context, and the
-    declaration stands at the start of the rendering; the full claim — `original_encoding` of a re-parse resolves to the
-    target codec — is checked on the real code for every case). For an ASCII-compatible codec, the bytes of a rendering
-    that begins with the HTML5 declaration written for `e` let the finder return `e`. -/
-theorem redetect_charset_partial (C : Codec) (hc : C.AsciiCompat) (e rest : PStr) (he : NameLike e)
-    (hrest : C.Encodable rest) :
-    findDeclared (C.enc (ofS "<meta charset=\"" ++ e ++ [34] ++ rest)) = some e := by
-  rw [hc _ rest (ascii_prefix e he _ (by decide)) hrest]
-  have e1 : ofS "<meta charset=\"" ++ e ++ [34] ++ C.enc rest
-      = 60 :: 109 :: 101 :: 116 :: 97 :: 32 :: 99 :: 104 :: 97 :: 114 :: 115 :: 101 :: 116 :: 61 :: 34 :: (e ++ 34 :: C.enc rest) := by
+/-- The same fact for the simpler reader `findDeclared` that takes the *first* `charset\s*=\s*["']?value` anywhere in the
+    bytes (no `<meta` context): any ASCII text `pre` in which the word `charset` does not occur (`quietDecl`, decidable), then
+    the HTML5 declaration as the renderer writes it for `e`. (`redetect_charset` / `redetect_content` below are the statements
+    against dammit's own regex.) -/
+theorem redetect_charset_first_match (C : Codec) (hc : C.AsciiCompat) (pre e rest : PStr) (hpre : ∀ c ∈ pre, c < 128)
+    (hq : quietDecl pre = true) (he : NameLike e) (hrest : C.Encodable rest) :
+    findDeclared (C.enc (pre ++ ofS "charset=\"" ++ e ++ [34] ++ rest)) = some e := by
+  have hasc : ∀ c ∈ pre ++ ofS "charset=\"" ++ e ++ [34], c < 128 := by
+    intro c hc
+    simp only [List.mem_append] at hc
+    rcases hc with ((hc | hc) | hc) | hc
+    · exact hpre c hc
+    · revert c; decide
+    · exact (he c hc).1
+    · simp at hc; omega
+  rw [hc _ rest hasc hrest]
+  have e1 : pre ++ ofS "charset=\"" ++ e ++ [34] ++ C.enc rest = pre ++ (ofS "charset=" ++ (34 :: (e ++ 34 :: C.enc rest))) := by
     simp [ofS]
-  rw [e1]
-  have step : ∀ X, findDeclared (60 :: 109 :: 101 :: 116 :: 97 :: 32 :: 99 :: 104 :: 97 :: 114 :: 115 :: 101 :: 116 :: 61 :: 34 :: X)
-      = match declValue X with | some v => some v | none => findDeclared (104 :: 97 :: 114 :: 115 :: 101 :: 116 :: 61 :: 34 :: X) := by
-    intro X; rfl
-  rw [step, declValue_name e _ he]
+  rw [e1, findDeclared_quiet pre _ hq, findDeclared_key_quoted e _ he]
 
-/-- the same for the HTML4 declaration as `meta_rewritten_content_partial` renders it (non-empty name) -/
-theorem redetect_content_partial (C : Codec) (hc : C.AsciiCompat) (e rest : PStr) (he : NameLike e) (hne : e ≠ [])
-    (hrest : C.Encodable rest) :
-    findDeclared (C.enc (ofS "<meta content=\"text/html; charset=" ++ e ++ [34] ++ rest)) = some e := by
-  rw [hc _ rest (ascii_prefix e he _ (by decide)) hrest]
+/-- the same for the HTML4 declaration (`… charset=e"`, non-empty name): `pre` is then everything up to the key, e.g.
+    `<html><head><meta content="text/html; ` -/
+theorem redetect_content_first_match (C : Codec) (hc : C.AsciiCompat) (pre e rest : PStr) (hpre : ∀ c ∈ pre, c < 128)
+    (hq : quietDecl pre = true) (he : NameLike e) (hne : e ≠ []) (hrest : C.Encodable rest) :
+    findDeclared (C.enc (pre ++ ofS "charset=" ++ e ++ [34] ++ rest)) = some e := by
+  have hasc : ∀ c ∈ pre ++ ofS "charset=" ++ e ++ [34], c < 128 := by
+    intro c hc
+    simp only [List.mem_append] at hc
+    rcases hc with ((hc | hc) | hc) | hc
+    · exact hpre c hc
+    · revert c; decide
+    · exact (he c hc).1
+    · simp at hc; omega
+  rw [hc _ rest hasc hrest]
   obtain ⟨c, cs, rfl⟩ : ∃ c cs, e = c :: cs := by
     cases e with
     | nil => exact absurd rfl hne
     | cons c cs => exact ⟨c, cs, rfl⟩
-  have hcn := he c (by simp)
-  have e1 : ofS "<meta content=\"text/html; charset=" ++ (c :: cs) ++ [34] ++ C.enc rest
-      = 60 :: 109 :: 101 :: 116 :: 97 :: 32 :: 99 :: 111 :: 110 :: 116 :: 101 :: 110 :: 116 :: 61 :: 34 :: 116 :: 101 :: 120 :: 116
-        :: 47 :: 104 :: 116 :: 109 :: 108 :: 59 :: 32 :: 99 :: 104 :: 97 :: 114 :: 115 :: 101 :: 116 :: 61 :: (c :: (cs ++ 34 :: C.enc rest)) := by
+  have e1 : pre ++ ofS "charset=" ++ (c :: cs) ++ [34] ++ C.enc rest = pre ++ (ofS "charset=" ++ (c :: cs ++ 34 :: C.enc rest)) := by
     simp [ofS]
-  rw [e1]
-  have step : ∀ X, findDeclared (60 :: 109 :: 101 :: 116 :: 97 :: 32 :: 99 :: 111 :: 110 :: 116 :: 101 :: 110 :: 116 :: 61 :: 34 :: 116 :: 101 :: 120 :: 116
-        :: 47 :: 104 :: 116 :: 109 :: 108 :: 59 :: 32 :: 99 :: 104 :: 97 :: 114 :: 115 :: 101 :: 116 :: 61 :: X)
-      = match declAfterKey (61 :: X) with | some v => some v | none => findDeclared (104 :: 97 :: 114 :: 115 :: 101 :: 116 :: 61 :: X) := by
-    intro X; rfl
-  rw [step]
-  have hq : stripQuote (c :: (cs ++ 34 :: C.enc rest)) = c :: (cs ++ 34 :: C.enc rest) := by
-    have h34 : c ≠ 34 := by intro h; subst h; simp [isTerminator] at hcn
-    have h39 : c ≠ 39 := by intro h; subst h; simp [isTerminator] at hcn
-    unfold stripQuote
-    split
-    · rename_i heq; cases heq; exact absurd rfl h34
-    · rename_i heq; cases heq; exact absurd rfl h39
-    · rfl
-  have hk : declAfterKey (61 :: c :: (cs ++ 34 :: C.enc rest)) = some (c :: cs) := by
-    have hd1 : (61 :: c :: (cs ++ 34 :: C.enc rest)).dropWhile isAsciiSpace = 61 :: c :: (cs ++ 34 :: C.enc rest) := by rfl
-    have hd2 : (c :: (cs ++ 34 :: C.enc rest)).dropWhile isAsciiSpace = c :: (cs ++ 34 :: C.enc rest) := by
-      simp [List.dropWhile, hcn.2.2]
-    unfold declAfterKey
-    rw [hd1]
-    simp only [hd2, hq]
-    exact declValue_name (c :: cs) _ he
-  rw [hk]
+  rw [e1, findDeclared_quiet pre _ hq, findDeclared_key_bare c cs _ he]
 
+/-- **Re-detection against the input side's own model (full for the HTML5 declaration).** `BS.EncodingIn.htmlSearch` is
+    C07's model of dammit's `html_meta` regex — leftmost `<\s*meta`, greedy `[^>]+`, the LAST `charset\s*=\s*["']?…` of that
+    tag. For every ASCII-compatible codec, every ASCII text `pre` before the tag in which that regex finds nothing (whatever
+    follows: `hq`), every tag `<meta A charset="e" B>` as `_format_tag` writes it (`A`: earlier attributes, any ASCII without
+    `>`; `B`: ASCII without `=` and `>`, e.g. the `/` of a void element), every name `e` a declaration can carry, and
+    everything after the tag: the regex, run on the bytes `encode` produced, returns `e`. -/
+theorem redetect_charset (C : Codec) (hc : C.AsciiCompat) (pre A e B rest : PStr)
+    (hpre : ∀ c ∈ pre, c < 128) (hq : ∀ X, EncodingIn.htmlSearch (pre ++ X) = EncodingIn.htmlSearch X)
+    (hA : ∀ c ∈ A, c < 128 ∧ c ≠ 62) (he : DetName e) (hB : ∀ c ∈ B, c < 128 ∧ c ≠ 61 ∧ c ≠ 62) (hrest : C.Encodable rest) :
+    EncodingIn.htmlSearch (C.enc ((pre ++ (ofS "<meta " ++ (A ++ (ofS "charset=\"" ++ (e ++ 34 :: (B ++ [62])))))) ++ rest)) = some e := by
+  have hasc : ∀ c ∈ pre ++ (ofS "<meta " ++ (A ++ (ofS "charset=\"" ++ (e ++ 34 :: (B ++ [62]))))), c < 128 := by
+    intro c hc
+    simp only [List.mem_append, List.mem_cons, List.mem_singleton, List.not_mem_nil, or_false] at hc
+    rcases hc with hc | hc | hc | hc | hc | rfl | hc | rfl
+    · exact hpre c hc
+    · revert c; decide
+    · exact (hA c hc).1
+    · revert c; decide
+    · exact (he c hc).1
+    · omega
+    · exact (hB c hc).1
+    · omega
+  rw [hc _ rest hasc hrest]
+  have e1 : (pre ++ (ofS "<meta " ++ (A ++ (ofS "charset=\"" ++ (e ++ 34 :: (B ++ [62])))))) ++ C.enc rest
+      = pre ++ (ofS "<meta " ++ (A ++ (ofS "charset=\"" ++ (e ++ 34 :: (B ++ 62 :: C.enc rest))))) := by simp
+  rw [e1, hq]
+  exact htmlSearch_meta A e B _ (fun c h => (hA c h).2) he (fun c h => ⟨(hB c h).2.1, (hB c h).2.2⟩)
+
+/-- … and for the HTML4 declaration: `<meta A charset=e" B>` where `A` is everything of the tag up to the key (e.g.
+    `content="text/html; `), `e` is non-empty, and `B` is the rest of the tag in which the regex finds nothing more
+    (`hB`, e.g. ` http-equiv="Content-Type"/`). -/
+theorem redetect_content (C : Codec) (hc : C.AsciiCompat) (pre A : PStr) (c : Nat) (cs B rest : PStr)
+    (hpre : ∀ x ∈ pre, x < 128) (hq : ∀ X, EncodingIn.htmlSearch (pre ++ X) = EncodingIn.htmlSearch X)
+    (hA : ∀ x ∈ A, x < 128 ∧ x ≠ 62) (he : DetName (c :: cs)) (hBa : ∀ x ∈ B, x < 128)
+    (hB : ∀ X, EncodingIn.lastCharset (B ++ 62 :: X) = none) (hrest : C.Encodable rest) :
+    EncodingIn.htmlSearch (C.enc ((pre ++ (ofS "<meta " ++ (A ++ (ofS "charset=" ++ (c :: cs ++ 34 :: (B ++ [62])))))) ++ rest))
+      = some (c :: cs) := by
+  have hasc : ∀ x ∈ pre ++ (ofS "<meta " ++ (A ++ (ofS "charset=" ++ (c :: cs ++ 34 :: (B ++ [62]))))), x < 128 := by
+    intro x hx
+    simp only [List.mem_append, List.mem_cons, List.mem_singleton, List.not_mem_nil, or_false] at hx
+    rcases hx with hx | hx | hx | hx | hx | rfl | hx | rfl
+    · exact hpre x hx
+    · revert x; decide
+    · exact (hA x hx).1
+    · revert x; decide
+    · rcases hx with rfl | hx
+      · exact (he _ (by simp)).1
+      · exact (he x (by simp [hx])).1
+    · omega
+    · exact hBa x hx
+    · omega
+  rw [hc _ rest hasc hrest]
+  have e1 : (pre ++ (ofS "<meta " ++ (A ++ (ofS "charset=" ++ (c :: cs ++ 34 :: (B ++ [62])))))) ++ C.enc rest
+      = pre ++ (ofS "<meta " ++ (A ++ (ofS "charset=" ++ (c :: cs ++ 34 :: (B ++ 62 :: C.enc rest))))) := by simp
+  rw [e1, hq]
+  exact htmlSearch_meta_bare A c cs B _ (fun x h => (hA x h).2) he (hB _)
+
+example : ∀ X, EncodingIn.lastCharset (ofS " http-equiv=\"Content-Type\"/" ++ 62 :: X) = none := by intro X; rfl
+example : EncodingIn.htmlSearch (latin1Codec.enc (decodeNode (some (ofS "latin-1")) []
+    (.tag (ofS "head") [] [.tag (ofS "title") [] [.text [0xE9]], metaContent, .tag (ofS "p") [] [.text [0x2603]]])))
+    = some (ofS "latin-1") := by decide +kernel
+
+-- the hypotheses are satisfiable: a real document head before the tag, a real codec, a real name
+example : ∀ X, EncodingIn.htmlSearch (ofS "<html><head><title>t</title>" ++ X) = EncodingIn.htmlSearch X := by intro X; rfl
+example : DetName (ofS "iso-8859-15") := by unfold DetName; decide
+example : EncodingIn.htmlSearch (utf8Codec.enc (decodeNode (some (ofS "utf-8")) []
+    (.tag (ofS "html") [] [.tag (ofS "head") [] [.tag (ofS "title") [] [.text [0x2603]], metaCharset], .text [0x1F600]])))
+    = some (ofS "utf-8") := by decide +kernel
+-- with both declaration styles in one tag the regex takes the one in `content` — which the repaired code has rewritten too
+example : EncodingIn.htmlSearch (latin1Codec.enc (decodeNode (some (ofS "latin-1")) []
+    (.tag (ofS "meta") (setUpSubstitutions (ofS "meta") metaBothAttrs) []))) = some (ofS "latin-1") := by decide +kernel
+
+/-- **BOM-carrying output.** `utf-32` output is always recognised by its mark, `utf-16` output whenever the rendering does
+    not begin with U+0000 (a rendering begins with `<` or text) — the "(and those written with a byte-order mark)" clause. -/
+theorem redetect_bom (s : PStr) (c : Nat) (cs : PStr) (h0 : c ≠ 0) (hc : c < 0x10000) :
+    sniffBom (utf32Codec.enc s) = some .utf32le ∧ sniffBom (utf16Codec.enc (c :: cs)) = some .utf16le :=
+  ⟨sniff_utf32 s, sniff_utf16 c cs h0 hc⟩
+
+/-- without that proviso it fails: a `utf-16` document that begins with U+0000 carries `FF FE 00 00`, the UTF-32-LE mark -/
+theorem redetect_bom_needs_nonzero_start : sniffBom (utf16Codec.enc [0, 60]) = some .utf32le := by decide
+
+example : utf8Codec.AsciiCompat ∧ (tableCodec sb_koi8_r).AsciiCompat :=
+  ⟨utf8_asciiCompat, (sb_table_codec_laws (ofS "koi8-r") sb_koi8_r (by simp [sbCodecs, ofS])).2.2 (by decide)⟩
+example : quietDecl (ofS "<html><head><title>chars et al</title><meta a=\"c\" ") = true := by decide
+example : quietDecl (ofS "<meta content=\"text/html; x=CHARSET; ") = false := by decide
+example : findDeclared (utf8Codec.enc (ofS "<html><head><meta " ++ ofS "charset=\"" ++ ofS "utf-8" ++ [34] ++ [0x2603, 0x1F600])) = some (ofS "utf-8") := by
+  decide
 example : findDeclared (asciiCodec.enc (decodeNode (some (ofS "ascii")) [] metaCharset)) = some (ofS "ascii") := by decide
 example : findDeclared (latin1Codec.enc (decodeNode (some (ofS "latin-1")) [] metaContent)) = some (ofS "latin-1") := by decide
 example : NameLike (ofS "iso-8859-15") := by unfold NameLike; decide
